@@ -225,18 +225,177 @@ def isqrtBits (m : Nat) : Nat → Nat → Nat
   | 0, r => r
   | bit + 1, r => let t := r + 2 ^ bit; isqrtBits m bit (if t * t ≤ m then t else r)
 
-/-- the binary64 nearest to √v (ties to even) for a positive rational v in the normal range: with `2^e ≤ √v < 2^(e+1)` and
-    `ulp = 2^(e−52)`, `n = ⌊√(v/ulp²)⌋` has 53 bits and the result is `n·ulp` or `(n+1)·ulp` according to the side of
-    `(n + ½)²` on which `v/ulp²` lies -/
-def sqrt64 (v : Rat) : Rat :=
-  if v ≤ 0 then 0 else
-  let e : Int := (expOf v) / 2          -- Int division rounds towards −∞ for a positive divisor
-  let ulp := pow2 e * c52
-  let q := v / (ulp * ulp)
+/-- `2^(e−52)` for the exponent `e` of √v: `2^e ≤ √v < 2^(e+1)` (Int division rounds towards −∞ for a positive divisor) -/
+def sqrtUlp (v : Rat) : Rat := pow2 (expOf v / 2) * c52
+
+/-- the 53-bit significand of the binary64 nearest to √q for `q = v / ulp²`: `n = ⌊√q⌋`, then `n` or `n + 1` according to the side
+    of `(n + ½)²` on which `q` lies (a tie — impossible for binary64 arguments — to the even one) -/
+def sqrtMant (q : Rat) : Nat :=
   let n := isqrtBits q.floor.toNat 54 0
   let mid : Rat := ((n : Rat) + 1 / 2) * ((n : Rat) + 1 / 2)
-  let n' : Nat := if q < mid then n else if mid < q then n + 1 else if n % 2 = 0 then n else n + 1
-  (n' : Rat) * ulp
+  if q < mid then n else if mid < q then n + 1 else if n % 2 = 0 then n else n + 1
+
+/-- the binary64 nearest to √v (ties to even) for a positive rational v in the normal range -/
+def sqrt64 (v : Rat) : Rat :=
+  if v ≤ 0 then 0 else (sqrtMant (v / (sqrtUlp v * sqrtUlp v)) : Rat) * sqrtUlp v
+
+/-! ## `sqrt64` is the correctly rounded square root -/
+
+theorem isqrtBits_spec (m : Nat) : ∀ (bit r : Nat), r * r ≤ m → m < (r + 2 ^ bit) * (r + 2 ^ bit) →
+    isqrtBits m bit r * isqrtBits m bit r ≤ m ∧ m < (isqrtBits m bit r + 1) * (isqrtBits m bit r + 1) := by
+  intro bit
+  induction bit with
+  | zero => intro r h1 h2; simpa [isqrtBits] using ⟨h1, h2⟩
+  | succ bit ih =>
+    intro r h1 h2
+    simp only [isqrtBits]
+    by_cases ht : (r + 2 ^ bit) * (r + 2 ^ bit) ≤ m
+    · simp only [ht, if_true]
+      apply ih _ ht
+      have e : r + 2 ^ bit + 2 ^ bit = r + 2 ^ (bit + 1) := by rw [Nat.pow_succ]; omega
+      rw [e]; exact h2
+    · simp only [ht, if_false]
+      exact ih r h1 (by omega)
+
+/-- ⌊√m⌋ for every m below 2^108 -/
+theorem isqrt_spec (m : Nat) (hm : m < 2 ^ 108) :
+    isqrtBits m 54 0 * isqrtBits m 54 0 ≤ m ∧ m < (isqrtBits m 54 0 + 1) * (isqrtBits m 54 0 + 1) :=
+  isqrtBits_spec m 54 0 (by omega) (by
+    have : (0 + 2 ^ 54) * (0 + 2 ^ 54) = 2 ^ 108 := by decide
+    omega)
+
+
+/-- the rounding decision of `sqrt64` at the level of `q = v / ulp²`: the chosen integer is within ½ of √q -/
+theorem sqrtRound_bracket (q : Rat) (n : Nat) (hn1 : 1 ≤ n) (h1 : (n : Rat) * n ≤ q) (h2 : q < ((n : Rat) + 1) * ((n : Rat) + 1)) :
+    let mid : Rat := ((n : Rat) + 1 / 2) * ((n : Rat) + 1 / 2)
+    let n' : Nat := if q < mid then n else if mid < q then n + 1 else if n % 2 = 0 then n else n + 1
+    ((n' : Rat) - 1 / 2) * ((n' : Rat) - 1 / 2) ≤ q ∧ q ≤ ((n' : Rat) + 1 / 2) * ((n' : Rat) + 1 / 2) ∧ 1 ≤ n' := by
+  intro mid n'
+  have hn : (1 : Rat) ≤ (n : Rat) := by exact_mod_cast hn1
+  have c : ((n + 1 : Nat) : Rat) = (n : Rat) + 1 := by simp
+  have hmid : mid = (n : Rat) * n + n + 1 / 4 := by simp only [mid]; grind
+  by_cases a : q < mid
+  · have e : n' = n := by simp only [n', a, if_true]
+    rw [e]; refine ⟨by grind, by grind, hn1⟩
+  · by_cases b : mid < q
+    · have e : n' = n + 1 := by simp only [n', a, b, if_true, if_false]
+      rw [e, c]; refine ⟨by grind, by grind, by omega⟩
+    · have hq : q = mid := by grind
+      by_cases p : n % 2 = 0
+      · have e : n' = n := by simp only [n', a, b, p, if_true, if_false]
+        rw [e]; refine ⟨by grind, by grind, hn1⟩
+      · have e : n' = n + 1 := by simp only [n', a, b, p, if_false]
+        rw [e, c]; refine ⟨by grind, by grind, by omega⟩
+
+
+
+theorem sqrtUlp_pos (v : Rat) : 0 < sqrtUlp v := by
+  have : (0 : Rat) < c52 := by unfold c52; grind
+  exact Rat.mul_pos (pow2_pos _) this
+
+theorem sqrt64_bracket (v : Rat) (hv : 0 < v) (hlo : sqrtUlp v * sqrtUlp v ≤ v)
+    (hhi : v < ((2 ^ 108 : Nat) : Rat) * (sqrtUlp v * sqrtUlp v)) :
+    (sqrt64 v - sqrtUlp v / 2) * (sqrt64 v - sqrtUlp v / 2) ≤ v ∧
+    v ≤ (sqrt64 v + sqrtUlp v / 2) * (sqrt64 v + sqrtUlp v / 2) ∧ sqrtUlp v ≤ sqrt64 v := by
+  have hup := sqrtUlp_pos v
+  have hnv : ¬ v ≤ 0 := by grind
+  have hu2 : 0 < sqrtUlp v * sqrtUlp v := Rat.mul_pos hup hup
+  unfold sqrt64
+  simp only [hnv, if_false]
+  generalize hq : v / (sqrtUlp v * sqrtUlp v) = q
+  have hqv : q * (sqrtUlp v * sqrtUlp v) = v := by
+    rw [← hq]; have : sqrtUlp v * sqrtUlp v ≠ 0 := by grind
+    grind
+  have hq1 : (1 : Rat) ≤ q := by
+    apply le_of_mul_le_mul_right hu2; rw [hqv]; grind
+  have hq2 : q < ((2 ^ 108 : Nat) : Rat) := by
+    apply lt_of_mul_lt_mul_right hu2; rw [hqv]; exact hhi
+  -- the floor
+  have f1 := Rat.floor_le q
+  have f2 := Rat.lt_floor_add_one q
+  have fpos : (1 : Int) ≤ q.floor := Rat.le_floor_iff.mpr (by simpa using hq1)
+  have flt : q.floor < ((2 ^ 108 : Nat) : Int) := Rat.floor_lt_iff.mpr (by simpa using hq2)
+  generalize hm : q.floor.toNat = m
+  have hmz : (m : Int) = q.floor := by rw [← hm]; omega
+  have hm1 : 1 ≤ m := by omega
+  have hm2 : m < 2 ^ 108 := by omega
+  have mq1 : (m : Rat) ≤ q := by
+    have : ((m : Int) : Rat) ≤ q := by rw [hmz]; exact f1
+    simpa [Rat.intCast_natCast] using this
+  have mq2 : q < (m : Rat) + 1 := by
+    have : q < (((m : Int) + 1 : Int) : Rat) := by rw [hmz]; exact f2
+    simpa [Rat.intCast_natCast, Rat.intCast_add] using this
+  obtain ⟨s1, s2⟩ := isqrt_spec m hm2
+  generalize hn : isqrtBits m 54 0 = n at s1 s2
+  have hn1 : 1 ≤ n := by
+    apply Classical.byContradiction; intro h
+    have : n = 0 := by omega
+    subst this; simp at s2; omega
+  have r1 : (n : Rat) * n ≤ q := by
+    have : ((n * n : Nat) : Rat) ≤ (m : Rat) := by exact_mod_cast s1
+    have e : ((n * n : Nat) : Rat) = (n : Rat) * n := by simp
+    grind
+  have r2 : q < ((n : Rat) + 1) * ((n : Rat) + 1) := by
+    have h' : m + 1 ≤ (n + 1) * (n + 1) := by omega
+    have : ((m + 1 : Nat) : Rat) ≤ (((n + 1) * (n + 1) : Nat) : Rat) := by exact_mod_cast h'
+    have e1 : ((m + 1 : Nat) : Rat) = (m : Rat) + 1 := by simp
+    have e2 : (((n + 1) * (n + 1) : Nat) : Rat) = ((n : Rat) + 1) * ((n : Rat) + 1) := by simp
+    grind
+  have br := sqrtRound_bracket q n hn1 r1 r2
+  simp only [] at br
+  have hmant : sqrtMant q = (if q < ((n : Rat) + 1 / 2) * ((n : Rat) + 1 / 2) then n
+      else if ((n : Rat) + 1 / 2) * ((n : Rat) + 1 / 2) < q then n + 1 else if n % 2 = 0 then n else n + 1) := by
+    unfold sqrtMant; simp only [hm, hn]
+  rw [hmant]
+  generalize (if q < ((n : Rat) + 1 / 2) * ((n : Rat) + 1 / 2) then n
+      else if ((n : Rat) + 1 / 2) * ((n : Rat) + 1 / 2) < q then n + 1 else if n % 2 = 0 then n else n + 1) = n' at br ⊢
+  obtain ⟨b1, b2, b3⟩ := br
+  have b3' : (1 : Rat) ≤ (n' : Rat) := by exact_mod_cast b3
+  generalize sqrtUlp v = ulp at *
+  have m1 := Rat.mul_le_mul_of_nonneg_right b1 (by grind : (0 : Rat) ≤ ulp * ulp)
+  have m2 := Rat.mul_le_mul_of_nonneg_right b2 (by grind : (0 : Rat) ≤ ulp * ulp)
+  have m3 := Rat.mul_le_mul_of_nonneg_right b3' (by grind : (0 : Rat) ≤ ulp)
+  refine ⟨by grind, by grind, by grind⟩
+
+
+theorem c52sq : ((2 ^ 108 : Nat) : Rat) * (c52 * c52) = 16 := by decide +kernel
+theorem c52sq_le : c52 * c52 ≤ 1 := by decide +kernel
+
+/-- the hypotheses of `sqrt64_bracket` hold for every positive rational: `q = v / ulp²` lies in `[2^104, 2^106)` -/
+theorem sqrt_range (v : Rat) (hv : 0 < v) :
+    sqrtUlp v * sqrtUlp v ≤ v ∧ v < ((2 ^ 108 : Nat) : Rat) * (sqrtUlp v * sqrtUlp v) := by
+  have hne : v ≠ 0 := by grind
+  have hok := exponentOk_of_ne_zero v hne
+  simp only [exponentOk, Bool.and_eq_true, decide_eq_true_eq] at hok
+  rw [ab_of_nonneg v (by grind)] at hok
+  obtain ⟨lo, hi⟩ := hok
+  unfold sqrtUlp
+  generalize expOf v = E at lo hi
+  have hE : E = E / 2 + E / 2 ∨ E = E / 2 + E / 2 + 1 := by omega
+  generalize E / 2 = e at hE
+  have pe := pow2_pos e
+  have pp : pow2 e * pow2 e = pow2 (e + e) := (pow2_add e e).symm
+  have ppos := pow2_pos (e + e)
+  have h1 := c52sq
+  have h2 := c52sq_le
+  have hc : (0 : Rat) ≤ c52 * c52 := by unfold c52; grind
+  have e1 : pow2 e * c52 * (pow2 e * c52) = pow2 (e + e) * (c52 * c52) := by rw [← pp]; grind
+  rw [e1]
+  have m1 := Rat.mul_le_mul_of_nonneg_left h2 (by grind : (0 : Rat) ≤ pow2 (e + e))
+  have e2 : ((2 ^ 108 : Nat) : Rat) * (pow2 (e + e) * (c52 * c52)) = pow2 (e + e) * 16 := by
+    rw [← h1]; grind
+  rw [e2]
+  rcases hE with h | h
+  · rw [h] at lo hi; constructor <;> grind
+  · rw [h, pow2_succ] at lo hi; constructor <;> grind
+
+/-- **`sqrt64` is the correctly rounded square root**: for every positive rational v the value returned is within half a unit in
+    the last place (of the binade of √v) of √v — stated without √: `(r − ulp/2)² ≤ v ≤ (r + ulp/2)²` with `r ≥ ulp` (so both
+    bases are positive and the squares are monotone) -/
+theorem sqrt64_correctly_rounded (v : Rat) (hv : 0 < v) :
+    (sqrt64 v - sqrtUlp v / 2) * (sqrt64 v - sqrtUlp v / 2) ≤ v ∧
+    v ≤ (sqrt64 v + sqrtUlp v / 2) * (sqrt64 v + sqrtUlp v / 2) ∧ sqrtUlp v ≤ sqrt64 v :=
+  sqrt64_bracket v hv (sqrt_range v hv).1 (sqrt_range v hv).2
 
 
 end Bmc.FloatModel
